@@ -85,7 +85,7 @@ protected:
 
     void wait(bool fastmode) {
       if (fastmode) {
-        while (!fastRelease.load(std::memory_order_relaxed)) {
+        while (!fastRelease.load(std::memory_order_acquire)) {
           asmPause();
         }
         fastRelease = 0;
